@@ -129,7 +129,7 @@ pub fn ref_answers(p: &Prog, depth: usize) -> Option<Vec<String>> {
         res.iter()
             .map(|s| {
                 let terms: Vec<T> = (0..p.nq).map(|i| rwalk_star(&s.sub, &T::Var(i))).collect();
-                Ans { terms, constraints: vec![], relevant: vec![vec![]; p.nq], constrained: vec![false; p.nq] }.show("")
+                Ans { terms, constraints: vec![], relevant: vec![vec![]; p.nq], constrained: vec![false; p.nq], counters: None }.show("")
             })
             .collect(),
     )
